@@ -35,7 +35,8 @@ CHECKS = {
              'executed with callee contracts as hooks: exactly one entry per examined pair, disqualifying issues kept, otherwise the '
              'cryptographic check is called and decides, delegation only to the named subkey; check_management / check_soundness / '
              'check_primitives and validate_params: an expired, invalid, disabled or self-signature-less key always reports that condition, '
-             'advisory weaknesses only add bits.',
+             'advisory weaknesses only add bits; a second call on the same key object is judged by the conditions at that call. Bounded: the verdict '
+             'along the history of one key object.',
         note=TB + '; the aggregate methods are element-wise filters proved for list lengths 0..3, not by induction',
         technique='contract-based deductive verification: VCs from the Python AST, callee contracts as hooks, z3/cvc5',
         design_ref='6 (C17)'),
@@ -66,7 +67,9 @@ CHECKS = {
         category='proof',
         text='PubKeyV4.fingerprint is proved to hash 0x99 || be16(6+publen) || 04 || be32(epoch of the instant) || alg || public material, '
              'PubKeyV4.__bytearray__ to export the same body, publen() to be the length of the public MPI prefix of __bytearray__() for '
-             'RSA/DSA/ElGamal public and secret (protected/unprotected) material, keyid/shortid to be the low 64/32 bits.',
+             'RSA/DSA/ElGamal public and secret (protected/unprotected) material, keyid/shortid to be the low 64/32 bits; the scenarios of the other '
+             'modules that carry this tag are included: where the id is written (issuer, issuer fingerprint, recipient), where key packets are read, '
+             'and add_subkey (same algorithm, creation time and material after the conversion to a subkey packet).',
         note=TB + '; EC materials (pyasn1 OID) and whole-history stability are bounded components',
         technique='contract-based deductive verification: VCs from the Python AST, externals uninterpreted; z3/cvc5',
         design_ref='6 (C18)'),
@@ -78,7 +81,7 @@ CHECKS = {
              'iterated+salted, fresh IV (block size) and salt (8) from the randomness stream, plaintext = secret MPIs || SHA-1, secret fields '
              'wiped; decrypt_keyblob: accepts iff the SHA-1 trailer / 16-bit checksum matches, per-algorithm variants assign nothing on failure '
              'and recover the MPIs in order; clear() zeroes exactly the secret fields; protected material serialises to public MPIs || S2K || '
-             'ciphertext only (non-interference).',
+             'ciphertext only (non-interference); four configurations of the passphrase-to-key derivation (text / octets, second call after re-salting).',
         note=TB + '; ciphers, SHA-1, os.urandom are externals (uninterpreted / ghost stream); derive_key and MPI decoding are used through their '
                   'contracts (C12, C09); operation interleavings are a bounded component',
         technique='contract-based deductive verification: VCs from the Python AST, context-manager exits enumerated symbolically, callee '
@@ -89,7 +92,9 @@ CHECKS = {
         text='PGPMessage.__iter__ on a signed literal message is verified with two inductive loop invariants over an unknown number of '
              'signatures: one-pass packets in reverse order, flag 1 only on the last, literal (and MDC), signatures in order; make_onepass '
              'names type/hash/pubalg/issuer with the flag clear; the one-pass packet layout equals RFC 4880 5.4; __bytearray__ wraps the whole '
-             'sequence in one compressed packet iff compression is set.',
+             'sequence in one compressed packet iff compression is set; CompressedData.parse (loop contract: what is left is a suffix of the '
+             'decompressed data) and __bytearray__; CompressionAlgorithm.compress / decompress against stated contracts of zlib / bz2 (codec, '
+             'framing, window).',
         note=TB + '; content/metadata round trips and compression externals are a bounded component',
         technique='contract-based deductive verification with inductive loop invariants over abstract sequences; z3/cvc5',
         design_ref='6 (C20)'),
@@ -101,7 +106,7 @@ CHECKS = {
              'updates the header length; every signing option lands in a hashed subpacket of its type; certify / revoke / bind choose type, hashed '
              'subpackets and (for signing subkeys) the embedded cross-signature per RFC 4880 5.2.1 / 5.2.3; value layouts of the subpackets written '
              '(times, expirations, issuer, fingerprint, booleans, preference lists by loop contract, flag octets, notations, text); hashdata == RFC '
-             '4880 5.2.4 for all types (shared with C01); per-algorithm verify glue. Both directions against the independent RFC implementation over '
+             '4880 5.2.4 for all types (shared with C01); per-algorithm verify glue; how a cleartext-signed message is written out. Both directions against the independent RFC implementation over '
              'all options and algorithms are a bounded component.',
         note=TB,
         technique='contract-based deductive verification of the glue; bounded differential component against an independent RFC 4880 implementation',
@@ -142,7 +147,9 @@ CHECKS = {
         category='proof',
         text='Proved: packet header and length codecs in both directions, subpacket header, MPI, hashed-area verbatim, public-key body, one-pass packet '
              'layout, boolean subpacket parse/value, S2K count and specifier codec, literal data (format octet over all 256 values), signature packet '
-             'fields at their offsets, simple-body packets, subpacket value codecs, ECPoint.from_values. The dispatcher (metaclass registry), EC material, user attributes and the breadth of '
+             'fields at their offsets, simple-body packets, UserID parse/serialise/copy (also after the text was replaced), CompressedData, subpacket value '
+             'codecs, ECPoint.from_values, the dispatcher (handler by tag and version from the registry, Opaque otherwise, parser exceptions leave as '
+             'PGPError). The registry contents, EC material, user attributes and the breadth of '
              'packet classes (own output byte-exact; foreign input normalises once) are a bounded component over fixtures and generated packets.',
         note=TB + '; this property is only partly within reach: most packet classes are covered by the bounded component, not by obligations',
         technique='contract-based deductive verification of the codec core; bounded component for the packet-class breadth',
@@ -161,14 +168,16 @@ CHECKS = {
         category='exploration',
         text='Bounded stand-in: every text over the alphabet {-, space, tab, F, a, LF, CR} up to length 6 (7 thorough) plus an adversarial list goes '
              'through the real dash-escape / write / read / hash path and is compared with RFC 4880 7.1 spec functions and an independent verifier, in '
-             'both directions. Two deductive lemmas only (type 0x01 for cleartext; one CR LF substitution + RFC trailer in hashdata).',
-        note='regular expressions are outside the verifier; nothing is proved beyond the two lemmas; three genuine defects are known findings (D10, D11, D22)',
+             'both directions. Deductive: type 0x01 for cleartext; one CR LF substitution + RFC trailer in hashdata; the layout of the written-out message '
+             '(the text goes in as text, not as a template); the reader branch of PGPMessage.parse.',
+        note='regular expressions are outside the verifier; nothing is proved beyond these lemmas; three genuine defects are known findings (D10, D11, D22)',
         technique='bounded stand-in for contract-based verification: runtime contracts over an exhaustively enumerated text space; two deductive lemmas',
         design_ref='6 (C11)'),
     'C13': dict(
         category='proof',
         text='Over a ghost randomness stream (every os.urandom call is a fresh symbol): gen_key / gen_iv are one draw of key size / block size; '
-             'PGPKey.encrypt draws the session key exactly when none is supplied and uses it for both the session-key packet and the container; '
+             'PGPKey.encrypt / PGPMessage.encrypt draw the session key exactly when none is supplied and use it for both the session-key packet and the '
+             'container, and a second encryption of the same message object draws a second one; '
              'SEIPD.encrypt draws a fresh prefix of block size; SKESK.encrypt_sk and encrypt_keyblob draw fresh salt (8) and IV. Distinctness across '
              'operations, ECDH ephemerals and "never in the clear" are a bounded component interposing os.urandom.',
         note=TB + '; assumes os.urandom yields independent uniform values',
@@ -212,7 +221,9 @@ CHECKS = {
              '(6 thorough) over a universe of five keys (shared names, public+private halves, subkeys), plus seeded walks; (2) the invariant is checked '
              'to be inductive: load/unload from every invariant-satisfying state of a bounded shape re-establishes it (history length unbounded, shape '
              'bounded). Deductive: the selection functions _get_key / _get_keys / key() over abstract alias layers (first layer that has the identifier '
-             'decides, exact form before the space-free form; a signature selects by its issuer id, a message by its first loaded issuer).',
+             'decides, exact form before the space-free form; a signature selects by its issuer id, a message by its first loaded issuer) and '
+             'fingerprints(keyhalf, keytype) on a reachable key table that is not closed under "subkey of". (3) all histories of load / unload of '
+             'each of 9 key objects, subkeys included, of length <= 3 (4 thorough) plus walks.',
         note='the layered alias index needs quantified array-of-map invariants that the VC generator does not offer; only the selection functions are proved',
         technique='bounded stand-in for contract-based verification: runtime class invariant over enumerated histories and as an induction step over '
                   'a bounded state shape; contract-based deductive verification of the selection functions',
